@@ -103,6 +103,19 @@ class Registry:
                     continue
                 self.load_contract_file(p)
         self.spec_natives["seconds"] = lambda it, a, k: self.opaque_as_int(it, a[0].val if isinstance(a[0], VOpt) else a[0])
+        def _keys_list(it, a, k):
+            d = it.deref(a[0])
+            if isinstance(d, VMap):
+                return it.enum_map(d)[0]
+            return it.enum_set(d)
+
+        def _idx_of(it, a, k):
+            d = it.deref(a[0])
+            n, order, pos = it.enum_dom(d.key, d.dom)
+            return VInt(pos(vals.key_term(d, a[1].val if isinstance(a[1], VOpt) else a[1])))
+
+        self.spec_natives["keys_list"] = _keys_list
+        self.spec_natives["idx_of"] = _idx_of
         self.spec_natives["implies"] = lambda it, a, k: VBool(z3.Implies(it.truthy(a[0]), it.truthy(a[1])))
         from . import models  # noqa: F401  registers externals
 
@@ -165,11 +178,14 @@ class Registry:
                 return z3.Function(f"{name}/{n}", *sorts, s)(*terms)
 
             out = vals.fresh(retkind, "r", namer=namer)
-            key = ("ghostwf", name, tuple(t.get_id() for t in terms))
+            from .strings import _tid
+
+            key = ("ghostwf", name, tuple(_tid(t) for t in terms))
             if key not in it.path.memo:
                 it.path.memo[key] = True
                 for f in vals.wellformed(out):
                     it.path.assume(f)
+                it.path.obs_log.append((name, list(args), out))
             return out
 
         self.spec_natives[name] = fn
@@ -312,11 +328,14 @@ class Registry:
         if kind.startswith("obj:") or kind.startswith("ref:"):
             raise Unsupported("object-valued attribute of opaque object")
         val = vals.fresh(kind, "a", namer=namer)
-        key = ("wf", owner, name, v.t.get_id())
+        from .strings import _tid
+
+        key = ("wf", owner, name, _tid(v.t))
         if key not in it.path.memo:
             it.path.memo[key] = True
             for f in vals.wellformed(val):
                 it.path.assume(f)
+            it.path.obs_log.append((f"{owner}.{name}", [v], val))
         return val
 
     def opaque_getattr(self, it, v: VOpaque, name):
@@ -430,6 +449,7 @@ class Registry:
         if oc.as_int is None:
             raise Unsupported(f"interface object {v.cls} used in arithmetic")
         t = z3.Function(f"{v.cls}.{oc.as_int}", v.t.sort(), INT)(v.t)
+        it.path.obs_log.append((f"{v.cls}.{oc.as_int}", [v], VInt(t)))
         if oc.nonneg:
             it.path.assume(t >= 0)
         return VInt(t)
